@@ -155,50 +155,7 @@ def run(p, report, tier):
         report.add("R20.2", ent, "-inf for candidates outside the subset", f"{sw.file}:{sw.node.lineno}", False,
                    detail="no -inf store into the returned utilities")
     check_subsampling_translation(p, report, sw, ent, tree, "R20.2")
-    # the subset size is computed from the population that is drawn from (in each candidates mode)
-    swt = FuncTree(sw.node)
-    n_ratio = 0
-    for ch in [c for c in ast.walk(sw.node) if isinstance(c, ast.Call) and c01.callname(c) == "choice"]:
-        kw = kwmap(ch)
-        pop = kw.get("a", ch.args[0] if ch.args else None)
-        size = kw.get("size", ch.args[1] if len(ch.args) > 1 else None)
-        if pop is None or not isinstance(size, ast.Name):
-            continue
-        ch_stmt = swt.stmt_of(ch)
-        # statements of the same top-level candidates-mode branch that precede the draw
-        chain = swt.ancestors(ch_stmt)
-        top = None
-        for (s_, owner, field, idx) in chain:
-            if isinstance(owner, ast.If) and "candidates is None" in ast.unparse(owner.test):
-                top = (owner, field)
-        region = getattr(top[0], top[1]) if top else sw.node.body
-        lens = set()
-        for st in region:
-            for x in ast.walk(st):
-                if isinstance(x, ast.Assign) and any(isinstance(t, ast.Name) and t.id == size.id for t in x.targets) \
-                        and x.lineno < ch_stmt.lineno:
-                    for c in ast.walk(x.value):
-                        if isinstance(c, ast.Call) and c01.callname(c) == "len" and c.args:
-                            lens.add(ast.unparse(c.args[0]))
-        popt = ast.unparse(pop)
-        aliases = {popt}
-        for x in ast.walk(sw.node):
-            if isinstance(x, ast.Assign) and len(x.targets) == 1 and ast.unparse(x.targets[0]) == popt:
-                v = x.value
-                if isinstance(v, ast.Name):
-                    aliases.add(v.id)
-                if isinstance(v, ast.Call) and c01.callname(v) in ("range", "arange") and v.args and \
-                        isinstance(v.args[0], ast.Call) and c01.callname(v.args[0]) == "len" and v.args[0].args:
-                    aliases.add(ast.unparse(v.args[0].args[0]))
-        n_ratio += 1
-        ok = bool(lens) and lens <= aliases
-        report.add("R20.2", ent, f"subset size of {site_id(ch, 50)} computed from the population drawn from",
-                   f"{sw.file}:{ch.lineno}", ok,
-                   detail=f"size from len({sorted(lens)}) ; population `{popt}`" if ok else
-                   f"the subset size is computed from len({sorted(lens - aliases)}) but the draw is from `{popt}`: the subset "
-                   "does not have the documented size")
-    if n_ratio < 1:
-        raise AnalysisError("SubSamplingWrapper.query: subset draws vanished")
+    check_subset_population(p, report, "R20.2")
     # ---------------- R20.3
     sa = p.get_class("SingleAnnotatorWrapper")
     g = sa.methods.get("_get_order_preserving_s_query")
@@ -273,6 +230,63 @@ def run(p, report, tier):
                    f"{f.file}:{f.node.lineno}", not da.reports, detail="; ".join(da.reports), nontrivial=False)
     report.assumptions += ["numerical equality of wrapped and unwrapped utilities is not decided",
                            "joblib.Parallel returns results in submission order"]
+
+
+def check_subset_population(p, report, rule="R20.2"):
+    """SubSamplingWrapper: the subset size is computed from the population that is drawn from."""
+    sw = p.get_method("SubSamplingWrapper", "query")
+    ent = sw.qual
+    swn = inline_temporaries(sw.node)      # `n_total = len(...)` is substituted back
+    # the subset size is computed from the population that is drawn from (in each candidates mode)
+    swt = FuncTree(swn)
+    n_ratio = 0
+    for ch in [c for c in ast.walk(swn) if isinstance(c, ast.Call) and c01.callname(c) == "choice"]:
+        kw = kwmap(ch)
+        pop = kw.get("a", ch.args[0] if ch.args else None)
+        size = kw.get("size", ch.args[1] if len(ch.args) > 1 else None)
+        if pop is None or not isinstance(size, ast.Name):
+            continue
+        ch_stmt = swt.stmt_of(ch)
+        # statements of the same top-level candidates-mode branch that precede the draw
+        chain = swt.ancestors(ch_stmt)
+        top = None
+        for (s_, owner, field, idx) in chain:
+            if isinstance(owner, ast.If) and "candidates is None" in ast.unparse(owner.test):
+                top = (owner, field)
+        region = list(getattr(top[0], top[1])) if top else list(swn.body)
+        if top:
+            # conversions hoisted in front of the candidates-mode split count for every mode
+            for st in swn.body:
+                if st is top[0] or any(x is top[0] for x in ast.walk(st)):
+                    break
+                region.append(st)
+        lens = set()
+        for st in region:
+            for x in ast.walk(st):
+                if isinstance(x, ast.Assign) and any(isinstance(t, ast.Name) and t.id == size.id for t in x.targets) \
+                        and x.lineno < ch_stmt.lineno:
+                    for c in ast.walk(x.value):
+                        if isinstance(c, ast.Call) and c01.callname(c) == "len" and c.args:
+                            lens.add(ast.unparse(c.args[0]))
+        popt = ast.unparse(pop)
+        aliases = {popt}
+        for x in ast.walk(swn):
+            if isinstance(x, ast.Assign) and len(x.targets) == 1 and ast.unparse(x.targets[0]) == popt:
+                v = x.value
+                if isinstance(v, ast.Name):
+                    aliases.add(v.id)
+                if isinstance(v, ast.Call) and c01.callname(v) in ("range", "arange") and v.args and \
+                        isinstance(v.args[0], ast.Call) and c01.callname(v.args[0]) == "len" and v.args[0].args:
+                    aliases.add(ast.unparse(v.args[0].args[0]))
+        n_ratio += 1
+        ok = bool(lens) and lens <= aliases
+        report.add(rule, ent, f"subset size of {site_id(ch, 50)} computed from the population drawn from",
+                   f"{sw.file}:{ch.lineno}", ok,
+                   detail=f"size from len({sorted(lens)}) ; population `{popt}`" if ok else
+                   f"the subset size is computed from len({sorted(lens - aliases)}) but the draw is from `{popt}`: the subset "
+                   "does not have the documented size")
+    if n_ratio < 1:
+        raise AnalysisError("SubSamplingWrapper.query: subset draws vanished")
 
 
 def check_subsampling_translation(p, report, sw, ent, tree, rule):
